@@ -2,7 +2,7 @@
 
    path/tmp/bak are directory entry names, old/new complete file contents, a directory maps
    names to contents.  [ops_fixed] is rewriteFile of tools/langlint/lint.go as repaired
-   (fixed temp name, one rename over the target), [ops_old] the sequence before the repair. *)
+   (fixed temp name, leftover unlinked first, one rename over the target), [ops_old] the sequence before the repair. *)
 From Common Require Import Base.
 From Rewrite Require Import Model Proofs.
 Open Scope N_scope.
@@ -72,18 +72,18 @@ Definition ex_new : content := [97;61;50;10;122;61;49;10].                      
 Example C36_crash_safe_nonvacuous :
   atomic_fs mid_posix /\
   crash_state mid_posix (ops_fixed 0 1 ex_new) ex_d0
-    (apply (run (firstn 1 (ops_fixed 0 1 ex_new)) ex_d0) (Write 1 (firstn 3 ex_new))) /\
-  apply (run (firstn 1 (ops_fixed 0 1 ex_new)) ex_d0) (Write 1 (firstn 3 ex_new)) 1 = Some [97;61;50] /\
-  apply (run (firstn 1 (ops_fixed 0 1 ex_new)) ex_d0) (Write 1 (firstn 3 ex_new)) 0 = ex_d0 0.
+    (apply (run (firstn 2 (ops_fixed 0 1 ex_new)) ex_d0) (Write 1 (firstn 3 ex_new))) /\
+  apply (run (firstn 2 (ops_fixed 0 1 ex_new)) ex_d0) (Write 1 (firstn 3 ex_new)) 1 = Some [97;61;50] /\
+  apply (run (firstn 2 (ops_fixed 0 1 ex_new)) ex_d0) (Write 1 (firstn 3 ex_new)) 0 = ex_d0 0.
 Proof.
   split; [exact mid_posix_atomic|]. split; [|split; reflexivity].
-  apply (cs_during mid_posix _ _ 1%nat (Write 1 ex_new)); [reflexivity|].
+  apply (cs_during mid_posix _ _ 2%nat (Write 1 ex_new)); [reflexivity|].
   right. right. exists 1, ex_new, 3%nat. split; reflexivity.
 Qed.
 
 Example C36_prefix_safe_nonvacuous :
-  map (fun k => run (firstn k (ops_fixed 0 1 ex_new)) ex_d0 0) (seq 0 7)
-  = [ex_d0 0; ex_d0 0; ex_d0 0; ex_d0 0; ex_d0 0; Some ex_new; Some ex_new].
+  map (fun k => run (firstn k (ops_fixed 0 1 ex_new)) ex_d0 0) (seq 0 8)
+  = [ex_d0 0; ex_d0 0; ex_d0 0; ex_d0 0; ex_d0 0; ex_d0 0; Some ex_new; Some ex_new].
 Proof. reflexivity. Qed.
 
 Example C36_no_litter_nonvacuous :
@@ -95,7 +95,7 @@ Proof. repeat split; try reflexivity; discriminate. Qed.
 Definition ex_fmt (c : content) : content := if str_eqb c [122;61;49;10;97;61;50;10] then ex_new else c.
 Example C36_later_run_clean_nonvacuous :
   lint_ops (ops_fixed 0 1) ex_fmt 0 ex_d0 = Some (ops_fixed 0 1 ex_new) /\
-  let d := run (firstn 3 (ops_fixed 0 1 ex_new)) ex_d0 in
+  let d := run (firstn 4 (ops_fixed 0 1 ex_new)) ex_d0 in
   d 1 = Some ex_new /\
   lint_ops (ops_fixed 0 1) ex_fmt 0 d = Some (ops_fixed 0 1 ex_new) /\
   map (run (ops_fixed 0 1 ex_new) d) [0;1;2;3] = [Some ex_new; None; None; Some [120]].
